@@ -26,6 +26,8 @@ def split_cases(path):
 def script_of(coll, lines):
     """a script (input of `robs <mode> run`) that repeats the case"""
     out = ["coll %s" % coll]
+    if any(l.startswith("cmd ") for l in lines):     # c14 traces echo their script
+        return "\n".join(out + [l[4:] for l in lines if l.startswith("cmd ")]) + "\n"
     for l in lines:
         if l.startswith("init "):
             out.append(l)
@@ -36,7 +38,7 @@ def script_of(coll, lines):
             out.append((("sub2r %s " if "race" in w else "sub2 %s ") % src[0][4:] if src else "sub ") + " ".join(rest))
         elif l == "op done":
             out.append("done")
-        elif l.startswith(("op ", "drop", "cut", "read ", "settle", "borrow ")):
+        elif l.startswith("op "):
             out.append(l)
     return "\n".join(out) + "\n"
 
@@ -78,7 +80,10 @@ def run_robs(ctx, mode, replay=None):
             interesting = first_sub is not None and any(
                 l.startswith("ev ") and (coll == "list" or not PLAIN.match(l)) for l in body[first_sub:])
             if mode == "c14":
-                interesting = first_sub is not None and any(l.startswith(("drop", "cut", "recv", "mirror", "borrow")) and "err" in l for l in body)
+                # a fault became visible: an error result of recv()/borrow(), or a list subscriber under back-pressure
+                interesting = first_sub is not None and (
+                    any(l.startswith(("recv ", "borrow ")) and "err" in l and "err=-" not in l for l in body)
+                    or (coll == "list" and any(l.startswith("recv ") for l in body)))
             h = hashlib.sha1("\n".join(body).encode()).hexdigest()
             if interesting and h not in hashes:
                 hashes.add(h)
@@ -95,17 +100,22 @@ def run_robs(ctx, mode, replay=None):
             elif line.startswith("VARIANT "):
                 variants.add(line.split(" ", 2)[2].split(":", 1)[1].strip())
     # verdicts: property predicate violated on a real run
+    def known(sig):
+        return any(kf["property"] == prop and re.search(kf["signature"], sig) for kf in ctx.known.get("findings", []))
+    new_fails = 0
     for cid, coll, what, case in fails:
         kind = what.split(" ")[0]
         m = re.search(r"cause=(\S+)", what)
         cause = m.group(1) if m else "?"
         sig = "%s %s %s cause=%s" % (mode, coll, kind, cause)
+        if not known(sig):
+            new_fails += 1
         script = script_of(case[0], case[1]) if case else ""
         ctx.violation("%s fails on the real run %s: %s" % (prop, cid, what), sig,
                       "# property %s violated by the real code; replay with: ./check %s --replay <this file>\n"
                       "# case %s: %s\n%s\n# --- full trace of the case ---\n# %s\n"
                       % (prop, prop, cid, what, script, "\n# ".join(case[1]) if case else ""))
-    if diffs and not fails:
+    if diffs and not new_fails:
         cid, what, case = diffs[0]
         script = script_of(case[0], case[1]) if case else ""
         ctx.violation("the real collections no longer behave like M_robs on %d point(s) (first: case %s: %s) but the %s "
